@@ -14,7 +14,8 @@ RULE = ("metamorphic pairs: a base input (msprime, 2-7 contemporaneous samples, 
         "with tsdate.inside_outside and tsdate.maximization, in a random probability space, (a) with an explicit "
         "prior grid carried through the permutation and (b) with the default conditional-coalescent prior built "
         "by tsdate from population_size; results are compared through the permutation. A pair is non-trivial when "
-        "the permutation is not the identity or the time order of the non-sample nodes changes; distinct by hash")
+        "the permutation is not the identity or the time order of the non-sample nodes changes; distinct by hash."
+        "About half of the inputs carry 1-3 extra mutations that sit on NO edge (above the root of the local tree; valid tskit input); the references count only mutations on edges, computed from the tables.")
 ASSUME = ["tskit's table sort / tree-sequence validation (the transformed copy is rebuilt and sorted by tskit)",
           "the correspondence of the inside pass model is the one of C10/C12 (re-run here on the transformed inputs)"]
 
@@ -48,6 +49,7 @@ def gen_pairs(ctx, n_multi, n_single):
             d = D.canon(D.add_mutations(d, [rng.choice([0, 0, 1, 1, 2, 3]) for _ in d["edges"]], rng))
             kind = "single"
         base = D.make_case(rng, d, kind=kind)
+        d = base["ts"]
         d2, m, what = transform(rng, d)
         other = dict(base)
         other["ts"] = d2
